@@ -3,6 +3,7 @@ package checks
 import (
 	"errors"
 	"fmt"
+	"math"
 	"testing"
 
 	"github.com/go-spatial/geom"
@@ -15,8 +16,8 @@ import (
 )
 
 var specC09 = report.Spec{Property: "C09", Check: "C09",
-	Rule: "a valid or arbitrary polygon inside the grid with 1-3 vertices moved to a generated position relative to the extent: outside on one of the sides left/bottom/right/top or a corner at a distance from {1e-10 units, 2..10 fixed point units, a fraction of a pixel, exactly on the exclusive right/top border, exactly 1 pixel, up to 10 pixels}, " +
-		"or (companion class) inside within one pixel of a border incl. exactly on the inclusive left/bottom border; grids: synthetic with zero and non-zero (also negative) origin, NetherlandsRDNewQuad, WebMercatorQuad; both values of IgnoreOutsideGrid. " +
+	Rule: "a valid or arbitrary polygon inside the grid with 1-3 vertices moved to a generated position relative to the extent: outside on one of the sides left/bottom/right/top or a corner at a distance from {1e-10 units, 2..10 fixed point units, a fraction of a pixel, exactly on the exclusive right/top border, exactly 1 pixel, up to 10 pixels, several grid widths, or an ordinate beyond the fixed point range (1e9 .. 1e30, infinite)}, " +
+		"or (companion class) inside within one pixel of a border incl. exactly on the inclusive left/bottom border; grids: synthetic with zero and non-zero (also negative) origin, NetherlandsRDNewQuad, WebMercatorQuad, and a set derived from NetherlandsRDNewQuad by halving/quartering the cell sizes on Go struct copies (shares pointers with the built-in set, used in the same process); both values of IgnoreOutsideGrid. " +
 		"Oracle: 'outside' is decided by the harness on the fixed point reading against [min, min+span) (exact). Outside => with ignore off the call panics with an error that errors.As a pointindex.OutsideGridError, with ignore on it returns an empty map; never geometry. " +
 		"All inside and the grid round => no OutsideGridError. PointIndex.InsertPoint is probed with every vertex: error <=> outside on round grids, error <= outside otherwise. " +
 		"Non-trivial: an outside vertex closer than one pixel to the extent or exactly on the exclusive border. Distinct by case content.",
@@ -27,12 +28,21 @@ type C09Case struct {
 	Moved []string `json:"moved"`
 }
 
+// c09Grid: as AnyGrid, plus a set derived from NetherlandsRDNewQuad in Go (cell sizes halved or quartered: the corner at the point of
+// origin) that shares pointers with the built-in set and is used in the same process, at the same levels.
+func c09Grid(t *rapid.T) gen.GridSpec {
+	if rapid.IntRange(0, 7).Draw(t, "derived") == 5 {
+		return gen.GridSpec{Kind: "derived", Name: "NetherlandsRDNewQuad", Factor: rapid.SampledFrom([]float64{0.5, 0.25}).Draw(t, "factor")}
+	}
+	return gen.AnyGrid(t)
+}
+
 func genC09(t *rapid.T) C09Case {
 	var c C09Case
 	if rapid.Bool().Draw(t, "validPolygon") {
-		c.SnapCase = drawValidCase(t, validOpts{maxHoles: 1}, gen.AnyGrid, 2)
+		c.SnapCase = drawValidCase(t, validOpts{maxHoles: 1}, c09Grid, 2)
 	} else {
-		c.SnapCase = drawArbCase(t, gen.AnyGrid, 2, 12)
+		c.SnapCase = drawArbCase(t, c09Grid, 2, 12)
 	}
 	c.Flags.Ignore = rapid.Bool().Draw(t, "ignoreOutside")
 	g := c.Grid.MustBuild()
@@ -57,7 +67,7 @@ func genC09(t *rapid.T) C09Case {
 		inside := rapid.IntRange(0, 3).Draw(t, "companion") == 0
 		side := rapid.SampledFrom([]string{"left", "bottom", "right", "top", "bottomleft", "bottomright", "topleft", "topright"}).Draw(t, "side")
 		var d int64
-		dcls := rapid.SampledFrom([]string{"1unit", "fewunits", "subpixel", "border", "1pixel", "pixels"}).Draw(t, "dist")
+		dcls := rapid.SampledFrom([]string{"1unit", "fewunits", "subpixel", "border", "1pixel", "pixels", "1unit", "fewunits", "subpixel", "border", "1pixel", "pixels", "far", "extreme"}).Draw(t, "dist")
 		switch dcls {
 		case "1unit":
 			d = 1
@@ -71,6 +81,8 @@ func genC09(t *rapid.T) C09Case {
 			d = px
 		case "pixels":
 			d = rapid.Int64Range(px, 10*px).Draw(t, "d")
+		case "far": // several grid widths away (inside the other grid that shares this one's origin, for derived grids)
+			d = rapid.Int64Range(g.Span/8, 3*g.Span).Draw(t, "d")
 		}
 		cur := P{X: kernel.ToFixed(c.Poly[sl[0]][sl[1]][0]), Y: kernel.ToFixed(c.Poly[sl[0]][sl[1]][1])}
 		hiX, hiY := g.MinX+g.Span, g.MinY+g.SpanY
@@ -109,6 +121,19 @@ func genC09(t *rapid.T) C09Case {
 		}
 		x, _ := gen.ExactFloat(np.X)
 		y, _ := gen.ExactFloat(np.Y)
+		if dcls == "extreme" && !inside { // beyond what 1e-10 fixed point can hold, and infinite
+			ex := rapid.SampledFrom([]float64{1e9, 9.3e8, 1e12, 1e30, math.Inf(1)}).Draw(t, "extreme")
+			switch side {
+			case "left", "bottomleft", "topleft":
+				x = -ex
+			case "right", "bottomright", "topright":
+				x = ex
+			case "bottom":
+				y = -ex
+			default:
+				y = ex
+			}
+		}
 		c.Poly[sl[0]][sl[1]] = [2]float64{x, y}
 		c.Moved = append(c.Moved, fmt.Sprintf("%s/%s/inside=%v", side, dcls, inside))
 	}
